@@ -56,9 +56,11 @@ CLAIMED = {
  "C06": C("C06_bound_data (never more than N octets for ANY input), C06_oversize_never_complete, C06_transparent proved for every stream and "
           "schedule; on the server model C06_chunk_over_limit (a BDAT command that would take the message over the limit hands no delivery a single octet, records no "
           "end of file and leaves no transaction behind), C06_accepted_chunk_bounded (an accepted chunk hands no delivery more than its declared size) and C06_declared_size_refused (SIZE above the limit is refused by the parameter switch, before the backend); "
-          "BDAT accounting across chunks and the 'fits => no 552' / '552 => discarded' rules judged on conversations around the limit.",
+          "C06_no_delivery_over_limit / C06_accounting_invariant (whole connections of the server model: DATA and BDAT in any mixture, any number of chunks and "
+          "transactions, completed, failed or abandoned transfers, every backend behaviour — no Data/LMTPData call is handed more than N octets; the invariant ties "
+          "the running delivery to bytesReceived and bytesReceived to N through every handler). The 'fits => no 552' / '552 => discarded' rules are judged on conversations around the limit.",
           "DESIGN.md 7 C06", "Lean 4 proof (DATA reader, server model) + monitors and differential correspondence (dr, conv probes)",
-          "the bytesReceived accounting across several chunks is tied by the correspondence and the monitors, not by a theorem"),
+          "the theorems are about the server model (int64 sizes are unbounded naturals there: a wrap-around of the size arithmetic is the correspondence's to catch)"),
  "C07": C("C07_data_cut / C07_eof_complete proved: for every cut point, limit and schedule no read reports EOF unless a complete terminated "
           "message was consumed; chunked transfers on the server model: C07_bdat_eof_only_after_last (an accepted BDAT records a clean end of file only if it carried LAST and "
           "its copy was complete), C07_abandoned_is_reset / C07_reset_close_no_eof (reset() and Close() end a running transfer with ErrDataReset, never EOF); every cut "
